@@ -11,8 +11,8 @@ import (
 // reuse destination) column-major; the oracle is the underlying property's: the
 // model has no notion of data order.
 
-var cmKinds = []string{"cmraw", "cmconv", "cmraw+sliced", "cmraw+lazyT", "cmconv+sliced"}
-var cmOrRm = []string{"cmraw", "cmconv", "cmraw+sliced", "cmraw+lazyT", "contig", "lazyT", "sliced"}
+var cmKinds = []string{"cmraw", "cmconv", "cmraw+sliced", "cmraw+lazyT", "cmconv+sliced", "cmraw+tailsliced"}
+var cmOrRm = []string{"cmraw", "cmconv", "cmraw+sliced", "cmraw+lazyT", "cmraw+tailsliced", "contig", "lazyT", "sliced"}
 var cmPlain = []string{"cmraw", "cmconv"}
 
 // c16Layouts draws layouts for n operands such that at least one is column-major.
@@ -140,6 +140,22 @@ func TestC16(t *testing.T) {
 				} else {
 					c.Axes = []int{rapid.IntRange(0, len(shape)-1).Draw(rt, "axis")}
 				}
+			}
+			return c
+		})
+	}
+	// the whole-array arg-reductions of column-major VIEWS (they are materialised first): pairwise distinct
+	// values, so that the position of the extreme is the answer
+	for _, op := range []string{"Argmax", "Argmin"} {
+		op := op
+		cell(t, "C16", "C08.reduce", "reduce/"+op+"/all-axes-of-views", nCases(60, 1500), func(rt *rapid.T) Case {
+			shape := genShapeMin2(rt, 2, 3, 4, "s")
+			d := rapid.SampledFrom([]DT{dtInt32, dtF64, dtUint8, dtF32}).Draw(rt, "dt")
+			c := &C08Case{Op: op, DT: d.Name, Via: rapid.SampledFrom([]string{"pkg", "method"}).Draw(rt, "via"), Axes: []int{-1}}
+			c.A = genOpnd(rt, shape, rapid.SampledFrom([]string{"cmraw+tailsliced", "cmraw+tailsliced", "cmraw+sliced", "cmconv+sliced"}).Draw(rt, "lk"), 0, 1, 0, "a")
+			perm := rapid.Permutation(iota(prod(shape))).Draw(rt, "values")
+			for i := range c.A.Codes {
+				c.A.Codes[i] = int64(perm[i])
 			}
 			return c
 		})
